@@ -150,14 +150,14 @@ pub fn exchange(addr: SocketAddr, req: &HttpReq, enc: Encoding, write_sizes: &[u
             }
         }
     }
-    parse_response(&buf).ok_or_else(|| SockError::NoResponse(format!("{} bytes received, no complete response; write: {werr:?}", buf.len())))
+    parse_response(&buf, req.method == "HEAD").ok_or_else(|| SockError::NoResponse(format!("{} bytes received, no complete response; write: {werr:?}", buf.len())))
 }
 
 fn find(h: &[u8], n: &[u8]) -> Option<usize> {
     h.windows(n.len()).position(|w| w == n)
 }
 
-pub fn parse_response(buf: &[u8]) -> Option<HttpResp> {
+pub fn parse_response(buf: &[u8], head_request: bool) -> Option<HttpResp> {
     let hend = find(buf, b"\r\n\r\n")?;
     let head = &buf[..hend];
     let mut lines = head.split(|b| *b == b'\n').map(|l| l.strip_suffix(b"\r").unwrap_or(l));
@@ -178,7 +178,9 @@ pub fn parse_response(buf: &[u8]) -> Option<HttpResp> {
     }
     let rest = &buf[hend + 4..];
     let get = |n: &str| headers.iter().find(|(k, _)| k.eq_ignore_ascii_case(n)).map(|(_, v)| String::from_utf8_lossy(v).to_string());
-    let body = if get("transfer-encoding").map(|v| v.to_ascii_lowercase().contains("chunked")).unwrap_or(false) {
+    let body = if head_request || status == 204 || status == 304 {
+        vec![]
+    } else if get("transfer-encoding").map(|v| v.to_ascii_lowercase().contains("chunked")).unwrap_or(false) {
         let mut out = vec![];
         let mut p = 0usize;
         loop {
